@@ -640,5 +640,14 @@ def run(ctx: Ctx, rep: Report, tier: str) -> None:
     items_setter_store(ctx, rep)
     ungroup_forgets_grouping(ctx, rep)
     list_api_forwarding(ctx, rep)
+    # R15.11 sort() orders by sequence number: resequence() numbers every item it walks over, a nested block too
+    # (C10 R10.4) - a block left with a stale number is ordered by the string tie-break
+    from .c10 import _traversal
+
+    sub = Report("C15")
+    sub.rule("R10.4")
+    for f in [g for g in ctx.prog.funcs if g.name == "resequence" and g.cls is not None]:
+        _traversal(ctx, sub, f)
+    rep.absorb(sub, "R15.11")
     r15_4(ctx, rep)
     r15_5(ctx, rep)
